@@ -1,6 +1,6 @@
 #![no_main]
 //! C03 through libFuzzer: every entry point, oracle inside the target.
-use harness_mac::props::c03::{check_frame, check_stream, SETS};
+use harness_mac::props::c03::{check_frame, check_new, check_stream, SETS};
 use libfuzzer_sys::fuzz_target;
 
 fuzz_target!(|data: &[u8]| {
@@ -9,6 +9,9 @@ fuzz_target!(|data: &[u8]| {
         if let Err(f) = check_stream(s, data) {
             panic!("C03 {}: {}", f.fingerprint, f.detail);
         }
+    }
+    if let Err(f) = check_new(data) {
+        panic!("C03 {}: {}", f.fingerprint, f.detail);
     }
     if let Err(f) = check_frame(data) {
         panic!("C03 {}: {}", f.fingerprint, f.detail);
